@@ -61,6 +61,18 @@ theorem libRecords_encRecs (f : FrameV2) (xs : List RecV2) :
     simp only [List.length_cons, libRecords, encRecs, libRecord_encRec, List.map_cons, ih]
     simp [recOfV2c]
 
+theorem encRec_pos (r : RecV2) : 0 < (encRec r).length := by
+  simp only [encRec, List.length_append, varint_length]
+  have := uvarintLen_pos (zigzag ((recBody r).length : Int))
+  simp only [varintLen]; omega
+
+theorem encRecs_length_ge (xs : List RecV2) : xs.length ≤ (encRecs xs).length := by
+  induction xs with
+  | nil => simp
+  | cons x xs ih =>
+    have := encRec_pos x
+    simp only [encRecs, List.length_cons, List.length_append]; omega
+
 /-- a batch as a broker stores it: well-formed header, the payload (after decompression) is the encoding of `xs` -/
 structure GoodBatch (dec : Int → Bytes → Option Bytes) (f : FrameV2) (xs : List RecV2) : Prop where
   wf : f.WF
@@ -102,7 +114,8 @@ theorem libReadV2_bytes (crc : Bytes → Nat) (dec : Int → Bytes → Option By
     libIsControl_eq, h.payload]
   have hcnt : ¬ f.count < 0 := by rw [h.count]; omega
   by_cases hcrc : crc (frameBody f) = c'
-  · have hx : ¬ ((xs.length : Int) < 0) := by omega
+  · have hx : ¬ ((xs.length : Int) < 0 ∨ (xs.length : Int) > ((encRecs xs).length : Int)) := by
+      have := encRecs_length_ge xs; omega
     simp only [hcrc, ne_eq, not_true_eq_false, if_false, h.count, hx, Int.toNat_natCast, libRecords_encRecs,
       libLogAppendV2_eq, map_stamp_recOfV2c, if_true]
   · simp [hcrc]
